@@ -164,6 +164,13 @@ def gen_mismatch(rng):
     return rng.choice(VALUE_HOSTS).replace("@", text)
 
 
+PREFIXES = ["template <typename T> ", "template <typename T> requires C<T> ", "template <typename T> requires (sizeof(T) > 1)\n",
+            "[[deprecated]] ", "alignas(8) ", "/** doc */ ", "template <> "]
+BREAKERS += [("friend_fn_outside", "friend void f(int);", ["top", "ns", "nested_ns", "extern"]),
+             ("friend_fn_body_outside", "friend int g(int a) { return a; }", ["top", "ns", "nested_ns", "extern"]),
+             ("friend_struct_outside", "friend struct F;", ["top", "ns", "nested_ns", "extern"])]
+
+
 def check_breaker(name, text, ctxname, tmpl):
     src = tmpl.replace("@", text)
     try:
@@ -255,6 +262,20 @@ def search(ctx, boost=False):
             msg = check_breaker(name, text, cname, tmpl)
             if msg:
                 s.violations.append(dict(what=msg, case=dict(kind="breaker", name=name, text=text, ctx=cname, tmpl=tmpl)))
+    # the same rule breakers behind the decorations a declaration may carry (template headers, requires-clauses, attributes, doc comments)
+    for name, text, where in BREAKERS:
+        if text.startswith("#") or name in ("stray_close", "stray_close_after", "open_brace_stmt"):
+            continue
+        for pre in PREFIXES:
+            for cname, tmpl in CONTEXTS:
+                if where != "all" and cname not in where:
+                    continue
+                s.evaluations += 1
+                s.count("decorated breaker")
+                s.nontrivial.add(tmpl.replace("@", pre + text))
+                msg = check_breaker(name, pre + text, cname, tmpl)
+                if msg:
+                    s.violations.append(dict(what=msg + ": " + pre + text, case=dict(kind="breaker", name=name, text=pre + text, ctx=cname, tmpl=tmpl)))
     # systematically mismatched brackets in every place an unparsed value or a skipped group can stand
     for _ in range(ctx.scale(600, 15000) * (3 if boost else 1)):
         text = gen_mismatch(rng)
